@@ -162,6 +162,14 @@ template <class T>
 bspline::support::Grid<T> make_grid(const GridC &g) {
   return bspline::support::Grid<T>(g.values<T>());
 }
+// the same points in a separately built object; with IEEE types a zero point gets the OTHER sign: logically equal
+// (-0.0 == +0.0), not bitwise identical - what two independently computed grids (i*h - L  vs  -(L - i*h)) look like
+template <class T>
+bspline::support::Grid<T> make_equal_grid(const GridC &g) {
+  std::vector<T> v = g.values<T>();
+  if constexpr (std::numeric_limits<T>::is_iec559) for (auto &x : v) if (x == static_cast<T>(0)) x = -x;
+  return bspline::support::Grid<T>(v);
+}
 template <class T, size_t order>
 bspline::Spline<T, order> make_spline(const bspline::support::Grid<T> &grid, const SplineC &c) {
   bspline::support::Support<T> sup(grid, (size_t)c.s, (size_t)c.e);
